@@ -114,3 +114,39 @@ package common
 //@   ensures err == nil ==> (previous != nil) == (o.query.Offset > 0)
 //@   ensures err == nil && previous != nil ==> previous.Offset == max(0, o.query.Offset - o.query.PageSize) && previous.PageSize == o.query.PageSize
 //@   ensures err != nil ==> o.query.Offset + o.query.PageSize > 18446744073709551615
+
+// ---- cursor.go: decoding a client-supplied cursor never panics (C38) ---------------------------------------
+
+//@ func UnmarshalCursor(v string, modifiers ...func(query *InitialPaginatedQuery[Options]) error) (r PaginatedQuery[Options], err error)
+//@   property C21 C38
+//@   assume-unreachable "reflect.ValueOf(q)" the value behind q is an OffsetPaginatedQuery or a ColumnPaginatedQuery, both of which implement PaginatedQuery (checked by the `var _ PaginatedQuery[any] = ...` declarations of the package)
+
+// ---- resource.go: the paginators are only built from queries that carry an order (C21 C38) ------------------
+
+//@ func newColumnPaginator(query ColumnPaginatedQuery[OptionsType], fieldName string, fieldType queries.FieldType) (r columnPaginator[ResourceType, OptionsType])
+//@   property C21 C38
+//@   requires query.Order != nil
+//@   requires query.PaginationID != nil ==> query.Bottom != nil
+//@   ensures r.query == query && r.fieldName == fieldName
+
+//@ func newOffsetPaginator(query OffsetPaginatedQuery[OptionsType]) (r OffsetPaginator[ResourceType, OptionsType])
+//@   property C21 C38
+//@   requires query.Order != nil
+//@   ensures r.query == query
+
+//@ func (r *PaginatedResourceRepository[ResourceType, OptionsType]) Paginate(ctx context.Context, paginationQuery PaginatedQuery[OptionsType]) (c *paginate.Cursor[ResourceType], err error)
+//@   property C21 C38
+//@   requires is(paginationQuery, OffsetPaginatedQuery[OptionsType]) || is(paginationQuery, ColumnPaginatedQuery[OptionsType]) || is(paginationQuery, InitialPaginatedQuery[OptionsType])
+//@   requires is(paginationQuery, ColumnPaginatedQuery[OptionsType]) ==> (paginationQuery.(ColumnPaginatedQuery[OptionsType]).PaginationID != nil ==> paginationQuery.(ColumnPaginatedQuery[OptionsType]).Bottom != nil)
+//@   requires r != nil && r.ResourceRepository != nil
+//@   modifies qLimit qOffset qOrderExpr qWhere qWhereCount qLimitCount qOffsetCount
+//@   note the second requires is what UnmarshalCursor establishes for decoded cursors (missing bottom is rejected there)
+
+//@ func NewResourceRepository(handler RepositoryHandler[OptionsType]) (r *ResourceRepository[ResourceType, OptionsType])
+//@   property C21 C38
+//@   ensures r != nil
+
+//@ func NewPaginatedResourceRepository(handler RepositoryHandler[OptionsType], defaultPaginationColumn string, defaultOrder paginate.Order) (r *PaginatedResourceRepository[ResourceType, OptionsType])
+//@   property C21 C38
+//@   ensures r != nil && r.ResourceRepository != nil && r.defaultOrder == defaultOrder && r.defaultPaginationColumn == defaultPaginationColumn
+//@   note establishes the receiver preconditions of Paginate
